@@ -32,6 +32,14 @@ def worker(args):
         full[org:org + size] = mem
         ign = []
         opts = pipedrv.gen_options(rnd)
+        if '-r' in opts:
+            # RST 8 with its inline argument, a few anywhere and often as the last thing before the end of the image / of memory
+            # (argument = the last byte; RST as the last byte: no argument left)
+            for _ in range(rnd.choice((0, 1, 2))):
+                mem[rnd.randrange(size)] = 0xCF
+            if rnd.random() < 0.6:
+                mem[size - rnd.choice((2, 2, 1, 3))] = 0xCF
+            full[org:org + size] = mem
         lines = ctlgen.gen_doc(rnd, full, start, end, ignored=ign if k % 3 == 0 else None, loops=(k % 3 == 1), rst='-r' in opts)
         if end >= 65536:
             lines = [l for l in lines if not l.startswith('i 65536')]
